@@ -811,6 +811,69 @@ void run_program(Tok &k, const std::string &id)
     std::cout << out.str() << "\n";
 }
 
+// ---------------------------------------------------------------- C01: reconfiguration at run time
+// XL <id> <zscoped> <n0> (<op> <k>)*n0 <nmsg> { <msg> <pre> <nlate> (<op> <k>)*nlate }*
+// root (unscoped) = [attr 3, sink 900, Z, sink 901]; Z is a SimplePipeline configured ONLY through the typed calls of
+// SortedPipeline (appendAttrHandler / appendFilter / setFormatter / appendSink / clear<Class> / clear), before the first
+// message and again between messages.
+void applyTyped(SimplePipeline &z, const std::string &op, int kk, ProgState *st)
+{
+    if (op == "tA") z.appendAttrHandler(QSharedPointer<AtomAttr>::create(kk));
+    else if (op == "tF") z.appendFilter(QSharedPointer<AtomFilter>::create(kk, st));
+    else if (op == "tM") z.setFormatter(QSharedPointer<AtomFormatter>::create(kk));
+    else if (op == "tS") z.appendSink(QSharedPointer<AtomSink>::create(kk, st));
+    else if (op == "cA") z.clearAttrHandlers();
+    else if (op == "cF") z.clearFilters();
+    else if (op == "cM") z.clearFormatters();
+    else if (op == "cS") z.clearSinks();
+    else if (op == "cc") z.clear();
+    else {
+        fprintf(stderr, "bad typed op %s\n", op.c_str());
+        exit(3);
+    }
+}
+
+void run_program_late(Tok &k, const std::string &id)
+{
+    ProgState st;
+    const bool zscoped = k.num() != 0;
+    auto z = QSharedPointer<SimplePipeline>::create(zscoped);
+    int n0 = int(k.num());
+    for (int i = 0; i < n0; ++i) {
+        const std::string op = k.next();
+        applyTyped(*z, op, int(k.num()), &st);
+    }
+    Pipeline root(false);
+    root.append(QSharedPointer<AtomAttr>::create(3));
+    root.append(QSharedPointer<AtomSink>::create(900, &st));
+    root.append(z);
+    root.append(QSharedPointer<AtomSink>::create(901, &st));
+    int nmsg = int(k.num());
+    std::ostringstream out;
+    out << "R " << id;
+    for (int i = 0; i < nmsg; ++i) {
+        MsgSpec ms;
+        ms.parse(k);
+        const std::string pre = k.next();
+        LogMessage m = ms.make();
+        if (pre != "~") m.setFormattedMessage(unhexs(pre));
+        st.curMsg = i;
+        bool r = root.process(m);
+        out << " E" << i << ":" << (r ? 1 : 0) << ":" << (m.isFormatted() ? hexs(m.formattedMessage()) : std::string("~")) << ":"
+            << hexs(attrDump(m.attributes()));
+        int nlate = int(k.num());
+        for (int j = 0; j < nlate; ++j) {
+            const std::string op = k.next();
+            applyTyped(*z, op, int(k.num()), &st);
+        }
+    }
+    for (const auto &d : st.deliveries) {
+        out << " D" << d.sink << ":" << d.msg << ":" << (d.isFormatted ? "1" : "0") << ":" << hexs(d.formatted) << ":" << hexs(d.raw) << ":"
+            << hexs(attrDump(d.attrs));
+    }
+    std::cout << out.str() << "\n";
+}
+
 // ---------------------------------------------------------------- C19B handler histories
 
 int g_recv = -1; // who received the last probe: 0..3 foreign, 10/11 logger A/B, -2 Qt default
@@ -966,6 +1029,8 @@ int main(int argc, char **argv)
             run_sorted(k, id);
         } else if (cmd == "X") {
             run_program(k, id);
+        } else if (cmd == "XL") {
+            run_program_late(k, id);
         } else if (cmd == "H") {
             run_handlers(k, id);
         } else {
